@@ -86,6 +86,8 @@ def _snapshot_library_state():
                 continue
             if type(val) in (dict, list, set):
                 snap[(m.__name__, attr)] = (val, val.copy())
+            elif val is None or isinstance(val, (int, float, str, bool, tuple, bytes)):
+                snap[(m.__name__, attr)] = ('plain', val)
     _PRISTINE = snap
 
 
@@ -95,8 +97,18 @@ def _reset_library_state():
     if _PRISTINE is None:
         _snapshot_library_state()
         return
+    import types
     for m in _library_modules():
         for attr, val in list(vars(m).items()):
+            key0 = (m.__name__, attr)
+            if key0 in _PRISTINE and _PRISTINE[key0][0] == 'plain' and not attr.startswith('__'):
+                # a module-level plain variable (None, number, string, tuple) that was re-bound since the process started
+                if val is not _PRISTINE[key0][1] and not isinstance(val, (types.ModuleType, types.FunctionType, type)):
+                    try:
+                        setattr(m, attr, _PRISTINE[key0][1])
+                    except Exception:
+                        pass
+                continue
             cc = getattr(val, 'cache_clear', None)
             if callable(cc):
                 try:
@@ -143,6 +155,8 @@ def _run_one(args):
         r['harness_error'] = f'{type(e).__name__}: {e}\n{traceback.format_exc()[-1500:]}'
     r['idx'] = idx
     r['wall'] = time.time() - t0
+    for f in r.get('failures', []):
+        f['origin'] = idx
     return r
 
 
@@ -317,6 +331,19 @@ def run(pid, tier, seed, workers=None, max_cases=None):
                                 '--replay', path], capture_output=True, text=True,
                                env=dict(os.environ, PYTHONHASHSEED='0'))
             ok = (p.returncode == 1)
+            if not ok and f.get('origin') is not None and f['origin'] < len(cases):
+                # the minimal case does not fail on its own: the failure may need the sequence of calls of the whole
+                # originating case (state carried between calls). Replay that whole case in a fresh process instead.
+                rec2 = dict(rec, case=cases[f['origin']], note='minimal case did not reproduce alone; this is the whole originating case')
+                path2 = os.path.join(replay_dir, jhash([sig, 'origin', f['origin']])[:16] + '.json')
+                with open(path2, 'w') as fh:
+                    json.dump(rec2, fh, indent=1, default=repr)
+                p2 = subprocess.run([sys.executable, '-B', '-W', 'ignore', os.path.join(VERIF, 'mc', 'run.py'), pid,
+                                     '--replay', path2], capture_output=True, text=True,
+                                    env=dict(os.environ, PYTHONHASHSEED='0'))
+                if p2.returncode == 1:
+                    ok = True
+                    path = path2
         if not ok:
             lines.append(f'NONDETERMINISM property={pid} signature={sig} replay={path} did not reproduce in a fresh process')
             exit_code = max(exit_code, 2)
